@@ -33,6 +33,7 @@ type JobSpec struct {
 	MaxPreempt int               `json:"max_preempt"`
 	MaxDeviate int               `json:"max_deviate"`
 	MaxValues  int               `json:"max_values"`
+	HangBound  int               `json:"hang_bound"`
 	TimeoutMs  int               `json:"timeout_ms"`
 	Solver     string            `json:"solver"`
 	NoReplay   bool              `json:"no_replay"` // schedule counterexamples: confirmed by deterministic re-execution
@@ -118,7 +119,7 @@ func expandJobs(specs []JobSpec) ([]Job, error) {
 		var rec func(i int, cur []int64)
 		rec = func(i int, cur []int64) {
 			if i == len(lists) {
-				out = append(out, Job{Harness: s.Harness, Args: append([]int64(nil), cur...), MaxPaths: s.MaxPaths, Unwind: s.Unwind, MaxPreempt: s.MaxPreempt, MaxDeviate: s.MaxDeviate, MaxValues: s.MaxValues, TimeoutMs: s.TimeoutMs, Solver: s.Solver})
+				out = append(out, Job{Harness: s.Harness, Args: append([]int64(nil), cur...), MaxPaths: s.MaxPaths, Unwind: s.Unwind, MaxPreempt: s.MaxPreempt, MaxDeviate: s.MaxDeviate, MaxValues: s.MaxValues, HangBound: s.HangBound, TimeoutMs: s.TimeoutMs, Solver: s.Solver})
 				return
 			}
 			for _, v := range lists[i] {
@@ -419,7 +420,8 @@ func (r *replayer) replay(v *Violation) *replayOutcome {
 	f.Write(b)
 	f.Close()
 	defer os.Remove(f.Name())
-	cmd := exec.Command(bin, "-test.run", "^TestVerifReplay$", "-test.timeout", "60s")
+	// address-space limit: a counterexample of a termination claim may allocate for ever
+	cmd := exec.Command("bash", "-c", "ulimit -v 8000000; exec \"$0\" -test.run '^TestVerifReplay$' -test.timeout 30s", bin)
 	cmd.Dir = filepath.Join(r.repo, pkgDirs[pkg])
 	cmd.Env = append(os.Environ(), "VERIF_REPLAY_FILE="+f.Name(), "VERIF_REPO_ROOT="+r.repo)
 	out, _ := cmd.CombinedOutput()
@@ -456,6 +458,11 @@ func reproduced(v *Violation, o *replayOutcome) bool {
 		return o.Panicked
 	case "mutation":
 		return o.Mutated
+	case "hang":
+		// the native run must not come back: killed by the test deadline or by
+		// the address-space limit of the replay process
+		txt := o.Error + o.PanicMsg
+		return strings.Contains(txt, "test timed out") || strings.Contains(txt, "out of memory") || strings.Contains(txt, "cannot allocate memory")
 	case "deadlock":
 		return strings.Contains(o.Error, "timed out") || strings.Contains(o.PanicMsg, "deadlock") || strings.Contains(o.PanicMsg, "test timed out")
 	}
